@@ -256,8 +256,15 @@ class TunnelEncaps(Attribute):
                                                                               ' is ipv4 or ipv6',
                                 data={}
                             )
+                        address_hex = netaddr.IPAddress(address).packed
+                        if len(address_hex) != length - 6:
+                            raise excep.ConstructAttributeFailed(
+                                reason='failed to construct attributes: %s' % 'remote endpoint address is not of the'
+                                                                              ' given address family',
+                                data={}
+                            )
                         policy_value_hex += struct.pack('!B', bgp_cons.BGPSUB_TLV_REMOTEENDPOINT_NEW) + struct.pack('!B', length) \
-                            + struct.pack('!I', asn) + struct.pack('!H', af_value) + netaddr.IPAddress(address).packed
+                            + struct.pack('!I', asn) + struct.pack('!H', af_value) + address_hex
 
                 else:
                     raise excep.ConstructAttributeFailed(
